@@ -3,3 +3,4 @@ pub mod c13;
 pub mod c12;
 pub mod c10;
 pub mod c05;
+pub mod c17;
